@@ -93,13 +93,48 @@ def stmt_list_names(f: Func):
     return out
 
 
+def roles(f: Func):
+    """Positional roles in the rewriting protocol: map_statement(self, stmt);
+    every expression handler is reached as handler(expr, condition of the
+    statement, its dependencies, list collecting the ids of new statements)."""
+    if f.name == "map_statement":
+        return {"stmt": f.arg(0)}
+    n = len(f.params) - (1 if f.cls is not None else 0)
+    if n < 4:
+        return {}
+    return {"expr": f.arg(0), "cond": f.arg(1), "base_deps": f.arg(2), "extra_deps": f.arg(3)}
+
+
+def handler_params(f: Func):
+    """Parameters of a helper that receive a superclass handler (super().map_X)
+    at a call site in the same class: calling one is a recursion."""
+    out = set()
+    if f.cls is None:
+        return out
+    for m in f.cls.methods.values():
+        for x in ast.walk(m.node):
+            if isinstance(x, ast.Call) and dotted(x.func) == f"self.{f.name}":
+                for i, a in enumerate(x.args):
+                    d = dotted(a) or ""
+                    if d.startswith("super().map_") and i + 1 < len(f.params):
+                        out.add(f.params[i + 1])
+                for k in x.keywords:
+                    if (dotted(k.value) or "").startswith("super().map_") and k.arg:
+                        out.add(k.arg)
+    return out
+
+
+def rec_names(f: Func):
+    return {"self.rec"} | handler_params(f)
+
+
 def dep_list_names(f: Func):
     """Names of lists of statement ids that end up in a depends_on: the
     extra_deps parameter, or locals occurring as frozenset(<name>) inside a
     depends_on= keyword."""
     out = set()
-    if "extra_deps" in f.params:
-        out.add("extra_deps")
+    if "extra_deps" in roles(f):
+        out.add(roles(f)["extra_deps"])
     for x in ast.walk(f.node):
         if isinstance(x, ast.keyword) and x.arg == "depends_on":
             for y in ast.walk(x.value):
@@ -365,9 +400,10 @@ def _seed(run, P):
 def _cond_derived(f: Func):
     """Names holding a condition derived from the rewritten statement's."""
     out = set()
-    for p in f.params:
-        if p == "base_condition":
-            out.add(p)
+    r = roles(f)
+    if "cond" in r:
+        out.add(r["cond"])
+    stmt_cond = f"{r['stmt']}.condition" if "stmt" in r else None
     changed = True
     while changed:
         changed = False
@@ -376,7 +412,7 @@ def _cond_derived(f: Func):
                     and isinstance(s.targets[0], ast.Name) and s.targets[0].id not in out:
                 v = s.value
                 if isinstance(v, ast.Call) and dotted(v.func) == "flat_LogicalAnd" and v.args \
-                        and (dotted(v.args[0]) in out or norm(v.args[0]) == "stmt.condition"):
+                        and (dotted(v.args[0]) in out or norm(v.args[0]) == stmt_cond):
                     out.add(s.targets[0].id)
                     changed = True
     return out
@@ -436,13 +472,17 @@ def _per_ctor(run, P, f: Func):
                    "(seeded with the names in use); a name taken from elsewhere can "
                    "capture a user variable")
         cv = kwarg(c, "condition")
-        ok = cv is not None and (dotted(cv) in conds or norm(cv) == "stmt.condition")
+        r_ = roles(f)
+        ok = cv is not None and (dotted(cv) in conds or (
+            "stmt" in r_ and norm(cv) == f"{r_['stmt']}.condition"))
         run.ob("C07.guard", f, c, ok,
                construct=f"{kind}(... condition={norm(cv) if cv is not None else 'missing'})",
                why="statements derived from a guarded statement must carry its guard")
         dv = kwarg(c, "depends_on")
         dsrc = norm(dv) if dv is not None else ""
-        ok = dv is not None and ("base_deps" in dsrc or "stmt.depends_on" in dsrc)
+        dnames = {dotted(x) for x in ast.walk(dv)} if dv is not None else set()
+        ok = dv is not None and (r_.get("base_deps") in dnames or (
+            "stmt" in r_ and f"{r_['stmt']}.depends_on" in dnames))
         run.ob("C07.deps", f, c, ok,
                construct=f"{kind}(... depends_on={dsrc or 'missing'})",
                why="an introduced statement must not run before the dependencies of "
@@ -483,7 +523,7 @@ def _per_ctor(run, P, f: Func):
     for n in g.nodes:
         for fr in own_fragments(n):
             for x in walk_fragment(fr):
-                if isinstance(x, ast.Call) and dotted(x.func) in ("self.rec", "super_method"):
+                if isinstance(x, ast.Call) and dotted(x.func) in rec_names(f):
                     rec_calls.append((n, x))
     for n, rc in rec_calls:
         used = set()
@@ -548,18 +588,19 @@ def _per_ctor(run, P, f: Func):
 
 def _rec_flow(run, P, f: Func, ctors):
     """Taint from the raw `expr` parameter; recursion sanitises."""
-    if "expr" not in f.params:
+    if "expr" not in roles(f):
         return
-    tainted = {"expr"}
+    tainted = {roles(f)["expr"]}
     changed = True
     stmts = func_body_stmts(f.node)
+    recs = rec_names(f)
 
     def expr_tainted(e):
         for x in ast.walk(e):
-            if isinstance(x, ast.Call) and dotted(x.func) in ("self.rec", "super_method") \
+            if isinstance(x, ast.Call) and dotted(x.func) in recs \
                     or (isinstance(x, ast.Call) and (dotted(x.func) or "").startswith("super().")):
                 # arguments of a recursion are consumed by it
-                return _outside_calls_tainted(e, tainted)
+                return _outside_calls_tainted(e, tainted, recs)
         return bool(_names_in(e) & tainted)
 
     while changed:
@@ -600,10 +641,10 @@ def _rec_flow(run, P, f: Func, ctors):
                    why="the right-hand side must be the recursion result")
 
 
-def _outside_calls_tainted(e, tainted):
+def _outside_calls_tainted(e, tainted, recs=("self.rec",)):
     """Tainted names occurring outside the argument lists of recursion calls."""
     def visit(n):
-        if isinstance(n, ast.Call) and (dotted(n.func) in ("self.rec", "super_method")
+        if isinstance(n, ast.Call) and (dotted(n.func) in recs
                                         or (dotted(n.func) or "").startswith("super().")):
             return False
         if isinstance(n, ast.Name) and n.id in tainted:
@@ -615,7 +656,7 @@ def _outside_calls_tainted(e, tainted):
 def polarity(run, P, rule):
     f = P.func(f"{MOD}.ExprIfThenElseExpander.map_if")
     e = f.params[1]
-    base = "base_condition"
+    base = roles(f)["cond"]
     # classify condition variables
     kinds = {base: "base"}
     flag = None
@@ -788,7 +829,7 @@ def _arity(run, P):
                 if not isinstance(x, ast.Call):
                     continue
                 d = dotted(x.func) or ""
-                is_rec = d == "self.rec" or d.startswith("super().map_") or d == "super_method"
+                is_rec = d == "self.rec" or d.startswith("super().map_") or d in handler_params(f)
                 if not is_rec:
                     continue
                 n_extra = len(x.args) - 1 + len(x.keywords)
